@@ -713,4 +713,144 @@ theorem snodeBmod_eq_snodeBlock' (cplx : Bool) (jcol fsupc : Nat) (lsub xlsub : 
   exact Finset.sum_congr rfl (fun r _ => mul_comm _ _)
 
 end sched
+/-! ### the forward solve of `sp_trsv` / `gstrs` through the mirrored kernels -/
+section trsv
+variable {K : Type} [Field K] [Inhabited K] [Conj K]
+
+/-- one supernode of the lower solve as the NON-vendor C code executes it (dsp_blas2.c:174-186):
+`lsolve` on the diagonal block, `matvec` into a zero `work[]`, scatter `x[irow] -= work[i]` -/
+def stepLNblas (cplx : Bool) (F : LUFac K) (s : SN) (x : Array K) : Array K :=
+  let x1 := lsolve cplx s.nsupr s.nsupc F.L.lusup s.luptr x s.fsupc
+  let work := matvec cplx s.nsupr (s.nsupr - s.nsupc) s.nsupc F.L.lusup (s.luptr + s.nsupc) x1 s.fsupc
+    (Array.replicate (s.nsupr - s.nsupc) 0)
+  (List.range (s.nsupr - s.nsupc)).foldl (fun (x : Array K) i =>
+    let r := F.L.lsub[s.istart + s.nsupc + i]!
+    x.setIfInBounds r (x[r]! - work[i]!)) x1
+
+theorem arr_ext (a b : Array K) (hs : a.size = b.size) (h : ∀ p, p < a.size → a[p]! = b[p]!) : a = b := by
+  apply Array.ext hs
+  intro i h1 h2
+  have := h i h1
+  simpa [getElem!_pos, h1, h2] using this
+
+theorem lsolve_eq_lsolveTo (cplx : Bool) (F : LUFac K) (s : SN) (x : Array K) (hb : s.fsupc + s.nsupc ≤ x.size) :
+    lsolve cplx s.nsupr s.nsupc F.L.lusup s.luptr x s.fsupc = lsolveTo (blk F.L s) s.fsupc x s.nsupc := by
+  have hz : ∀ i, i < s.nsupc →
+      (fwdSub (blk F.L s) (fun _ => 1) (fun i => x[s.fsupc + i]!) s.nsupc).getD i 0 = x[s.fsupc + i]! -
+        ∑ j ∈ range i, (fwdSub (blk F.L s) (fun _ => 1) (fun i => x[s.fsupc + i]!) s.nsupc).getD j 0 * blk F.L s i j := by
+    intro i hi
+    rw [fwd_rec _ _ _ s.nsupc i hi, div_one]
+    congr 1
+    exact Finset.sum_congr rfl (fun j _ => mul_comm _ _)
+  obtain ⟨a1, a2, a3⟩ := lsolveG_spec cplx s.nsupr s.nsupc (fun _ i => F.L.lusup[s.luptr + i]!) s.fsupc x (blk F.L s) _ hb
+    (fun _ _ i j _ _ => by unfold blk; rw [Nat.add_assoc]) hz
+  obtain ⟨b1, b2, b3⟩ := lsolveTo_spec (blk F.L s) s.fsupc x s.nsupc hb _ hz s.nsupc (le_refl _)
+  apply arr_ext _ _ (by unfold lsolve; rw [a1, b1])
+  intro p hp
+  unfold lsolve
+  by_cases hin : s.fsupc ≤ p ∧ p < s.fsupc + s.nsupc
+  · have : p = s.fsupc + (p - s.fsupc) := by omega
+    rw [this, a2 _ (by omega), b2 _ (by omega)]
+  · rw [a3 p (by omega), b3 p (by omega)]
+
+/-- **one supernode of the forward solve: mirrored kernels = modelled step** (exact arithmetic) -/
+theorem stepLNblas_eq_stepLN (cplx : Bool) (F : LUFac K) (s : SN) (x : Array K) (hb : s.fsupc + s.nsupc ≤ x.size) :
+    stepLNblas cplx F s x = stepLN F s x := by
+  unfold stepLNblas stepLN
+  dsimp only
+  rw [lsolve_eq_lsolveTo cplx F s x hb]
+  generalize lsolveTo (blk F.L s) s.fsupc x s.nsupc = x1
+  obtain ⟨m1, m2, _⟩ := matvec_spec' cplx s.nsupr (s.nsupr - s.nsupc) s.nsupc F.L.lusup (s.luptr + s.nsupc) x1 s.fsupc
+    (Array.replicate (s.nsupr - s.nsupc) (0 : K)) (by simp)
+  apply List.foldl_ext
+  intro a i hi
+  have hi' : i < s.nsupr - s.nsupc := List.mem_range.mp hi
+  congr 2
+  rw [m2 i hi', sumTo_eq_sum]
+  have : (Array.replicate (s.nsupr - s.nsupc) (0 : K))[i]! = 0 := by
+    simp [getElem!_pos, hi']
+  rw [this, zero_add]
+  apply Finset.sum_congr rfl
+  intro j _
+  unfold blk
+  have e : s.luptr + s.nsupc + (j * s.nsupr + i) = s.luptr + j * s.nsupr + (s.nsupc + i) := by omega
+  rw [e, mul_comm]
+
+/-- `x := inv(L) x` of `sp_[sdcz]trsv` / `[sdcz]gstrs` with every supernode processed by the mirrored
+`lsolve` + `matvec` (what the non-vendor build executes; the `nsupc == 1` shortcut of the C code is the
+`nsupc = 1` instance: `lsolve` does nothing, `matvec` is one column) -/
+def trsvLNblas (cplx : Bool) (F : LUFac K) (x : Array K) : Array K :=
+  (List.range (F.L.nsuper + 1)).foldl (fun x k => stepLNblas cplx F (snode F.L k) x) x
+
+theorem stepLN_size (F : LUFac K) (s : SN) (x : Array K) (hb : s.fsupc + s.nsupc ≤ x.size) : (stepLN F s x).size = x.size := by
+  have hz : ∀ i, i < s.nsupc →
+      (fwdSub (blk F.L s) (fun _ => 1) (fun i => x[s.fsupc + i]!) s.nsupc).getD i 0 = x[s.fsupc + i]! -
+        ∑ j ∈ range i, (fwdSub (blk F.L s) (fun _ => 1) (fun i => x[s.fsupc + i]!) s.nsupc).getD j 0 * blk F.L s i j := by
+    intro i hi
+    rw [fwd_rec _ _ _ s.nsupc i hi, div_one]
+    congr 1
+    exact Finset.sum_congr rfl (fun j _ => mul_comm _ _)
+  obtain ⟨b1, _, _⟩ := lsolveTo_spec (blk F.L s) s.fsupc x s.nsupc hb _ hz s.nsupc (le_refl _)
+  unfold stepLN
+  dsimp only
+  rw [(foldl_scatter_const (List.range (s.nsupr - s.nsupc)) (fun i => F.L.lsub[s.istart + s.nsupc + i]!)
+    (fun i => sumTo s.nsupc (fun j => blk F.L s (s.nsupc + i) j * (lsolveTo (blk F.L s) s.fsupc x s.nsupc)[s.fsupc + j]!))
+    (lsolveTo (blk F.L s) s.fsupc x s.nsupc)).1, b1]
+
+/-- **the whole forward solve: mirrored kernels = the model `trsvLN`** whose correctness
+(`spTrsv_LN`, `gstrs_notrans_solves`) is proved — so those theorems speak about what the non-vendor C
+code executes.  Hypothesis: every supernode's columns lie inside `x`. -/
+theorem trsvLNblas_eq_trsvLN (cplx : Bool) (F : LUFac K) (x : Array K)
+    (hb : ∀ k, k ≤ F.L.nsuper → (snode F.L k).fsupc + (snode F.L k).nsupc ≤ x.size) :
+    trsvLNblas cplx F x = trsvLN F x := by
+  rw [trsvLN_eq]
+  unfold trsvLNblas
+  have key : ∀ N, N ≤ F.L.nsuper + 1 →
+      (List.range N).foldl (fun x k => stepLNblas cplx F (snode F.L k) x) x =
+        (List.range N).foldl (fun x k => stepLN F (snode F.L k) x) x ∧
+      ((List.range N).foldl (fun x k => stepLN F (snode F.L k) x) x).size = x.size := by
+    intro N
+    induction N with
+    | zero => intro _; exact ⟨rfl, rfl⟩
+    | succ N ih =>
+      intro hN
+      obtain ⟨h1, h2⟩ := ih (by omega)
+      rw [List.range_succ, List.foldl_append, List.foldl_append, h1]
+      simp only [List.foldl_cons, List.foldl_nil]
+      have hbN := hb N (by omega)
+      rw [← h2] at hbN
+      exact ⟨stepLNblas_eq_stepLN cplx F _ _ hbN, by rw [stepLN_size F _ _ hbN, h2]⟩
+  exact (key _ (le_refl _)).1
+
+/-- one supernode of the upper solve as the non-vendor C code executes it (dsp_blas2.c:200-226):
+`usolve` on the diagonal block, then the column storage of U updates the rows above -/
+def stepUNblas (F : LUFac K) (s : SN) (x : Array K) : Array K :=
+  uscatTo F.U s.fsupc (usolve s.nsupr s.nsupc F.L.lusup s.luptr x s.fsupc) s.nsupc
+
+theorem stepUNblas_eq_stepUN (F : LUFac K) (s : SN) (x : Array K) : stepUNblas F s x = stepUN F false s x := by
+  unfold stepUNblas stepUN
+  rw [usolve_eq_usolveTo]
+  have h1 : (fun ir jc => F.L.lusup[s.luptr + (ir + jc * s.nsupr)]!) = blk F.L s := by
+    funext ir jc; unfold blk
+    have e : s.luptr + (ir + jc * s.nsupr) = s.luptr + jc * s.nsupr + ir := by omega
+    rw [e]
+  have h2 : (fun (jc : Nat) (v : K) => v / F.L.lusup[s.luptr + (jc + jc * s.nsupr)]!) =
+      (fun jc v => if false = true then v else v / blk F.L s jc jc) := by
+    funext jc v; unfold blk
+    have e : s.luptr + (jc + jc * s.nsupr) = s.luptr + jc * s.nsupr + jc := by omega
+    rw [e]; simp
+  rw [h1, h2]
+
+/-- `x := inv(U) x` with every diagonal block solved by the mirrored `usolve` -/
+def trsvUNblas (F : LUFac K) (x : Array K) : Array K :=
+  (List.range (F.L.nsuper + 1)).foldl (fun x kk => stepUNblas F (snode F.L (F.L.nsuper - kk)) x) x
+
+theorem trsvUNblas_eq_trsvUN (F : LUFac K) (x : Array K) : trsvUNblas F x = trsvUN F false x := by
+  rw [trsvUN_eq]
+  unfold trsvUNblas
+  apply List.foldl_ext
+  intro a kk _
+  exact stepUNblas_eq_stepUN F _ a
+
+end trsv
 end Slu.MyBlas2
